@@ -192,6 +192,32 @@ def index_mask(n: int, cell: bool, centred: bool, m0: bool, m1: bool, m2: bool) 
     return _check_index(mk(n, cell, centred), np.array([bool(m0), bool(m1), bool(m2)][:n]), True)
 
 
+def _check_getitem(t, key):
+    """t[key] (the operator form) agrees with numpy indexing of every field and shares nothing"""
+    snap = fields(t)
+    r = t[key]
+    wx = np.asarray(t.xyz[key])
+    wx = wx[np.newaxis] if wx.ndim == 2 else wx
+    ok = same(r.xyz, wx) and same(r.time, np.atleast_1d(t.time[key]))
+    if t.unitcell_lengths is not None:
+        ok = ok and same(r.unitcell_lengths, np.atleast_2d(t.unitcell_lengths[key])) and same(r.unitcell_angles, np.atleast_2d(t.unitcell_angles[key]))
+    return ok and inv(r) and unchanged(t, snap) and no_share(r, t, True)
+
+
+def index_key_types(n: int, cell: bool, centred: bool, i: int, kind: int, m0: bool, m1: bool, m2: bool) -> bool:
+    """
+    pre: 1 <= n <= 3 and 0 <= i < n and 0 <= kind <= 3
+    post: __return__
+    """
+    # keys of the types numpy hands out: integer scalars (np.argmin returns np.intp), and a plain Python list of bools (a mask turned into a list)
+    n, i, kind = conc(n, 1, 3), conc(i, 0, 2), conc(kind, 0, 3)
+    if kind <= 2:
+        key = [np.int64, np.intp, np.int32][kind](i)
+    else:
+        key = [bool(m0), bool(m1), bool(m2)][:n]
+    return _check_index(mk(n, cell, centred), key, True) and _check_getitem(mk(n, cell, centred), key)
+
+
 # ------------------------------------------------------------------ join / stack
 
 def join_two(n1: int, n2: int, cell: bool, c1: bool, c2: bool, check_top: bool, as_list: bool) -> bool:
